@@ -73,7 +73,7 @@ impl Check for AcceptCheck {
         "C17/acceptance".into()
     }
     fn classes(&self) -> &'static [&'static str] {
-        &["0.01 < p < 0.99", "candidate better", "candidate equal", "p ~ 0 (never)", "p ~ 1 (always)", "same solution, different objective values", "every uniform draw is 0.0"]
+        &["0.01 < p < 0.99", "candidate better", "candidate equal", "p ~ 0 (never)", "p ~ 1 (always)", "same solution, different objective values", "every uniform draw is 0.0", "temperature cooled far below the component's start temperature"]
     }
     fn oracle(&self, c: &AcceptCase) -> Outcome {
         let mut cl = 0;
@@ -100,8 +100,14 @@ fn accept_oracle(c: &AcceptCase, cl: &mut u64) -> Result<u32, Failure> {
     } else {
         *cl |= 16;
     }
-    let comp = ExponentialAnnealingAcceptance::new::<RealP>(t);
-    let at = format!("f(current) = {fc:?}, f(candidate) = {fn_:?}, T = {t:?}");
+    // one case in three: the component was constructed with a start temperature 2^60 times the temperature the decision is
+    // made at (the temperature was cooled by another component in between): the rule uses the CURRENT temperature
+    let cooled = c.seed % 3 == 0 && t.is_finite() && t > 0.0 && (t * 1.152921504606847e18).is_finite();
+    let comp = ExponentialAnnealingAcceptance::new::<RealP>(if cooled { t * 1.152921504606847e18 } else { t });
+    if cooled {
+        *cl |= 128;
+    }
+    let at = format!("f(current) = {fc:?}, f(candidate) = {fn_:?}, T = {t:?}{}", if cooled { " (start temperature 2^60 T)" } else { "" });
     let mut accepted = 0u32;
     for k in 0..c.n {
         let seed = c.seed.wrapping_add(k as u64 * 0x9E37_79B9);
@@ -120,6 +126,9 @@ fn accept_oracle(c: &AcceptCase, cl: &mut u64) -> Result<u32, Failure> {
         }
         let r = catch(|| {
             comp.init(&problem, &mut st)?;
+            if cooled {
+                st.set_value::<Temperature>(t);
+            }
             comp.execute(&problem, &mut st)
         });
         match r {
